@@ -18,7 +18,7 @@ EXPLANATION = (
     "the per-trial statistics; S5 best per mode - print_best_metric_found and ExperimentResult.best_config are dual pairs "
     "over the mode, the metric name and its mode are resolved together from the same index, the tuner looks the "
     "configuration up by the returned trial id; S6 the module that loads experiment results imports under the installed "
-    "numerical library (external-API stub lookup). NOT decided: NaN/tie behaviour of min/sorted/argmin; the CSV text "
+    "numerical library (external-API stub lookup). S1 also: every result given to the scheduler is given, in the same iteration, to every callback with the same trial / result and the decision just taken; a results callback is installed when none is given; the csv file is written whenever its path is known. NOT decided: NaN/tie behaviour of min/sorted/argmin; the CSV text "
     "round trip of floating-point numbers.")
 
 FLOOR = {"S1": 3, "S2": 5, "S3": 3, "S4": 6, "S5": 5, "S6": 1}
